@@ -1,7 +1,7 @@
 SPECIFICATION Spec
 CONSTANTS
   AKinds = {"def", "req", "one"}
-  SKinds = {"plain", "opt", "listreq", "link", "unc"}
+  SKinds = {"plain", "opt", "listreq", "linkreq", "unc"}
   CKinds = {"def", "opt", "int+", "sec:req"}
   DKinds = {"-", "multi"}
   Vals = {"1", "x"}
